@@ -212,6 +212,24 @@ func Maven(quick bool) (inDomain, outOfDomain []string) {
 	return dedup(inDomain), dedup(outOfDomain)
 }
 
+// C01Extra adds, for the total-order property only, prerelease identifiers made of digits that overflow 64 bits in
+// two different lengths next to digit-leading alphanumeric identifiers that sort between them as text: a comparator
+// that ranks the oversized numbers by length but everything else as text has a cycle through the three.
+func C01Extra(sys semver.System) []string {
+	switch sys {
+	case semver.PyPI, semver.RubyGems, semver.Maven:
+		return nil
+	}
+	out := []string{"1.0.0-99999999999999999999", "1.0.0-100000000000000000000", "1.0.0-5x", "1.0.0-20200101000000-abcdef123456",
+		"1.0.0-rc.99999999999999999999", "1.0.0-rc.100000000000000000000", "1.0.0-rc.5x"}
+	if sys == semver.Go {
+		for i := range out {
+			out[i] = "v" + out[i]
+		}
+	}
+	return out
+}
+
 // Versions returns the comparison domain of a system (the strings handed to
 // Parse; unparsable ones are counted and skipped by the caller).
 func Versions(sys semver.System, quick bool) []string {
